@@ -1,15 +1,24 @@
 (* Property C08 - render_dependencies only strips markers and inserts tags where documented.
-   Only statements here; proofs live in DepsRender/Proofs.v.  M-model: DepsRender/Model.v (the code's passes and
-   its slice/offset arithmetic), S-model: DepsRender/Spec.v (one-pass placement, end tags recognised in the
-   document's own symbols).  `deps` (which JS/CSS is generated - property C04) is arbitrary in every theorem. *)
-From DJC Require Import Lib.Base DepsRender.Model DepsRender.Spec DepsRender.Proofs DepsRender.Fixed.
+   Only statements here; proofs live in DepsRender/Proofs.v.  M-model: DepsRender/Model.v (the code's passes as they
+   are after fixes fa2cce9 and b234f8a: masked end-tag search, slice/offset arithmetic, fragment append, type round
+   trip, middleware guard), S-model: DepsRender/Spec.v (one left-to-right pass over the document's own symbols and
+   placeholders).  `deps` (which JS/CSS is generated - property C04) is arbitrary in every theorem. *)
+From DJC Require Import Lib.Base DepsRender.Model DepsRender.Spec DepsRender.Proofs.
 Import Coq.Strings.String.StringSyntax.
 Local Delimit Scope string_scope with string.
 Local Arguments s2n s%string.
 
-(* 1. For EVERY document, type and configuration: a successful result is the input with markers and placeholders
-      erased plus inserted copies of the generated JS / CSS blocks - no other symbol is added, dropped or moved.
-      (Unconditional: holds even inside the defect class of theorem 4.) *)
+(* 1. MAIN THEOREM.  For EVERY document, type (document / fragment) and configuration (known classes, generated
+      JS / CSS of any content, also JS / CSS that contain end-tag text): the code's result IS the specification's -
+      same error outcome, or: markers deleted; document mode: every placeholder replaced by the tags of its kind,
+      a kind without placeholder emitted once, in front of the symbol where the first </head> (CSS) / the last
+      </body> (JS) of the document starts, nothing anywhere else; fragment mode: placeholders deleted, JS appended. *)
+Theorem render_eq_spec : forall c ty d, render c ty d = spec_render c ty d.
+Proof. exact render_eq_spec_lemma. Qed.
+Print Assumptions render_eq_spec.
+
+(* 2. "Every other byte is preserved in order": a successful result is the input with markers and placeholders
+      erased plus inserted copies of the generated JS / CSS blocks - no other symbol is added, dropped or moved. *)
 Theorem other_bytes_preserved : forall c ty d out,
   render c ty d = ROk out ->
   let '(js, css) := deps c ty (harvest d) in
@@ -17,19 +26,21 @@ Theorem other_bytes_preserved : forall c ty d out,
 Proof. exact other_bytes_preserved_lemma. Qed.
 Print Assumptions other_bytes_preserved.
 
-(* 2. For EVERY text and every combination of wanted kinds: the finditer loop (with its skipping) followed by the
-      two slice insertions with the index_offset arithmetic of the code (after fix fa2cce9) equals ONE simultaneous
-      left-to-right pass that emits the CSS / JS at the positions found by trying every position - whatever the
-      order of </head> and </body>, also when both positions coincide or nothing is found. *)
-Theorem default_offsets_correct : forall t css js (want_css want_js : bool),
-  match insert_default t (if want_js then Some js else None) (if want_css then Some css else None) with
+(* 3. The slice arithmetic.  For EVERY text t, every search text of the same length and every combination of wanted
+      kinds: the finditer loop (with its skipping) followed by the two slice insertions with the index_offset
+      arithmetic of the code equals ONE simultaneous left-to-right pass that emits the CSS / JS at the positions found
+      by trying every position - whatever the order of </head> and </body>, also when both positions coincide or
+      nothing is found. *)
+Theorem default_offsets_correct : forall search t css js (want_css want_js : bool),
+  length search = length t ->
+  match insert_default search t (if want_js then Some js else None) (if want_css then Some css else None) with
   | Some x => x
   | None => t
-  end = let '(fh, lb) := find_ns want_css want_js t 0 None None in weave (ins2 fh lb css js) 0 t.
+  end = let '(fh, lb) := find_ns want_css want_js search 0 None None in weave (ins2 fh lb css js) 0 t.
 Proof. exact insert_default_weave. Qed.
 Print Assumptions default_offsets_correct.
 
-(* 2'. The arithmetic before fa2cce9 does not have this property (witness "AA</body>BB</head>CC"); the current
+(* 3'. The arithmetic before fa2cce9 does not have this property (witness "AA</body>BB</head>CC"); the current
        arithmetic gives the one-pass result on the same witness. *)
 Theorem old_offsets_refuted :
   exists t css js fh lb,
@@ -39,29 +50,23 @@ Theorem old_offsets_refuted :
 Proof. exact old_offsets_refuted_lemma. Qed.
 Print Assumptions old_offsets_refuted.
 
-(* 3. Placement, full statement restricted by the trigger class of theorem 4: for every document, type and
-      configuration such that each kind of block that is substituted at a placeholder is empty or a well-formed
-      tag run without end-tag text inside (tag_okb), the code's result IS the specification's: every placeholder
-      replaced, a kind without placeholder inserted before the first </head> / last </body> OF THE DOCUMENT
-      (theorems 5, 6), nothing elsewhere; fragment: placeholders erased, JS appended; same error outcomes.
-      Documents without placeholders need no guard at all.
-      MISSING for the full statement: the guard - see theorem 4. *)
-Theorem render_eq_spec_partial : forall c ty d,
-  (forall k, has k (ph_tokens (erase_markers d)) = true ->
-             tag_okb (repl (fst (deps c ty (harvest d))) (snd (deps c ty (harvest d))) k) = true) ->
-  render c ty d = spec_render c ty d.
-Proof. exact render_eq_spec_lemma. Qed.
-Print Assumptions render_eq_spec_partial.
+(* 4. Document mode in position form: the code's result = one pass over the substituted text that emits CSS / JS at
+      the offsets the specification's search (over the document's own symbols) returns.  Theorems 5 and 6 say which
+      offsets these are. *)
+Theorem render_doc_eq_positions : forall js css t, render_doc js css t = spec_doc js css t.
+Proof. exact render_doc_eq_spec_pos. Qed.
+Print Assumptions render_doc_eq_positions.
 
-(* 4. Without the guard the statement is false for the code as it is: JS placeholder present, no CSS placeholder,
-      a component's JS contains the text "</head>": the CSS is put inside the inserted <script> instead of before
-      the document's </head> (trigger class c08-endtag-in-inserted-tags; replayed on the implementation). *)
-Theorem render_eq_spec_refuted :
-  exists c d, render c Document d <> spec_render c Document d
-              /\ render c Document d = ROk (s2n "<head><script>var h='<style>.a{}</style></head>';</script></head><body></body>")
-              /\ spec_render c Document d = ROk (s2n "<head><script>var h='</head>';</script><style>.a{}</style></head><body></body>").
-Proof. exact render_eq_spec_refuted_lemma. Qed.
-Print Assumptions render_eq_spec_refuted.
+(* 4'. Searching the end tags in the substituted text itself (the code before b234f8a) does NOT meet the
+       specification: JS placeholder present, no CSS placeholder, JS containing the text "</head>" - the CSS lands
+       inside the inserted <script>; the current model puts it in front of the document's </head>. *)
+Theorem unmasked_search_refuted :
+  exists js css t,
+    render_doc_unmasked js css t <> spec_doc1 js css t
+    /\ render_doc_unmasked js css t = s2n "<head><script>var h='<style>.a{}</style></head>';</script></head><body></body>"
+    /\ render_doc js css t = s2n "<head><script>var h='</head>';</script><style>.a{}</style></head><body></body>".
+Proof. exact unmasked_search_refuted_lemma. Qed.
+Print Assumptions unmasked_search_refuted.
 
 (* 5. What the specification's search returns for CSS: the offset (in the substituted text) of the FIRST token at
       which a </head> of the document starts; None iff the document has none. *)
@@ -83,39 +88,100 @@ Theorem spec_js_before_last_body : forall (r : kind -> str) wc l pos fh lb,
 Proof. exact s_find_last_body. Qed.
 Print Assumptions spec_js_before_last_body.
 
-(* 7. The middleware leaves streaming responses and responses whose Content-Type does not start with "text/html"
-      (or is absent) untouched; the str / SafeString / bytes type of the input comes back.  (Both are immediate
-      from the model; what ties them to the code is the correspondence run.) *)
-Theorem middleware_passthrough_and_type : forall c,
-  (forall r, is_html r = false -> process_response c r = ROk r) /\
-  (forall ty k d k' o, render_any c ty k d = ROk (k', o) -> k' = k).
-Proof. exact middleware_and_type_lemma. Qed.
-Print Assumptions middleware_passthrough_and_type.
+(* 7. Single clauses of the statement, as corollaries of theorem 1. *)
+(* 7a. both kinds have a placeholder: tags at the placeholders only, whatever end tags the document has *)
+Theorem placeholders_only : forall js css t,
+  has KCss (ph_tokens t) = true -> has KJs (ph_tokens t) = true ->
+  render_doc js css t = subst (repl js css) (ph_tokens t).
+Proof. exact placeholders_only_lemma. Qed.
+Print Assumptions placeholders_only.
 
-(* 8. The candidate repair (notes/fixes/C08-endtag-in-inserted-tags.patch: search the end tags in a copy whose
-      inserted blocks are blanked out) meets the specification for ALL texts and ALL generated JS/CSS - the guard of
-      theorem 3 disappears.  This is a theorem about the model of the PATCHED code (DepsRender/Fixed.v), not about
-      /repo as it is. *)
-Theorem candidate_fix_meets_spec : forall js css t, render_doc_fixed js css t = spec_doc js css t.
-Proof. exact render_doc_fixed_eq_spec. Qed.
-Print Assumptions candidate_fix_meets_spec.
+(* 7b. "otherwise nowhere": no end tag of the document => only the placeholders are replaced *)
+Theorem nothing_without_end_tags : forall js css t,
+  (forall i, tag_here (repl js css) (skipn i (ph_tokens t)) = None) ->
+  render_doc js css t = subst (repl js css) (ph_tokens t).
+Proof. exact nothing_without_end_tags_lemma. Qed.
+Print Assumptions nothing_without_end_tags.
+
+(* 7c. fragment mode: markers and placeholders deleted, the JS appended at the end, nothing else *)
+Theorem fragment_appends : forall c d out,
+  render c Fragment d = ROk out ->
+  out = erase_ph (erase_markers d) ++ fst (deps c Fragment (harvest d)).
+Proof. exact fragment_appends_lemma. Qed.
+Print Assumptions fragment_appends.
+
+(* 8. The str / SafeString / bytes type of the input comes back (the model carries the isinstance tests and the
+      mark_safe of the code). *)
+Theorem type_preserved : forall c ty k d k' o, render_any c ty k d = ROk (k', o) -> k' = k.
+Proof. exact type_preserved_lemma. Qed.
+Print Assumptions type_preserved.
+
+(* 9. The middleware leaves streaming responses and responses whose Content-Type is absent or does not start with
+      "text/html" untouched ... *)
+Theorem middleware_passthrough : forall c r,
+  streaming r = true \/ ctype r = None \/ (exists t, ctype r = Some t /\ starts_with (s2n "text/html") t = false) ->
+  process_response c r = ROk r.
+Proof. exact middleware_passthrough_lemma. Qed.
+Print Assumptions middleware_passthrough.
+
+(* 9'. ... and for the others the body becomes the document-mode specification result, headers untouched. *)
+Theorem middleware_html_is_spec : forall c r,
+  is_html r = true ->
+  process_response c r =
+  match spec_render c Document (body r) with
+  | ROk o => ROk {| streaming := streaming r; ctype := ctype r; body := o |}
+  | RErr e => RErr e
+  end.
+Proof. exact middleware_html_lemma. Qed.
+Print Assumptions middleware_html_is_spec.
 
 (* ---------- non-vacuity ---------- *)
-(* the guard of theorem 3 holds for realistic tags, with a placeholder of that kind present *)
-Example guard_satisfiable :
+(* a realistic page: CSS at its placeholder, JS before </body > (whitespace variant), marker removed *)
+Example realistic_page :
   let js := s2n "<script src=""x.js""></script><script>console.log('A');</script>" in
   let css := s2n "<style>.a{color:red}</style>" in
   let d := s2n "<head><link name=""CSS_PLACEHOLDER""></head><body><!-- _RENDERED A_1,a1b2c3,, -->x</body >" in
   let c := const_cfg [s2n "A_1"] js css in
-  has KCss (ph_tokens (erase_markers d)) = true /\ tag_okb css = true /\ tag_okb js = true /\
+  has KCss (ph_tokens (erase_markers d)) = true /\
   render c Document d = ROk (s2n "<head><style>.a{color:red}</style></head><body>x<script src=""x.js""></script><script>console.log('A');</script></body >").
 Proof. vm_compute. repeat split. Qed.
 
-(* the witness class of the fixed defect: last </body> before first </head>, both default insertions *)
+(* theorem 3: a search text of the same length that differs from the text (the masked copy) *)
+Example masked_search_premise :
+  let t := s2n "<script></head></script></head>" in
+  let search := repeat 0%N 24 ++ s2n "</head>" in
+  length search = length t /\
+  insert_default search t None (Some (s2n "<C>")) = Some (s2n "<script></head></script><C></head>").
+Proof. vm_compute. split; reflexivity. Qed.
+
+(* the witness classes of the two fixed defects *)
 Example body_before_head :
   render (const_cfg [] (s2n "<JS>") (s2n "<CSS>")) Document (s2n "AA</body>BB</head>CC")
   = ROk (s2n "AA<JS></body>BB<CSS></head>CC").
 Proof. vm_compute. reflexivity. Qed.
+
+Example endtag_in_inserted_js :
+  render (const_cfg [] (s2n "<script>var h='</head>';</script>") (s2n "<style>.a{}</style>")) Document
+         (s2n "<head><script name=""JS_PLACEHOLDER""></script></head><body></body>")
+  = ROk (s2n "<head><script>var h='</head>';</script><style>.a{}</style></head><body></body>").
+Proof. vm_compute. reflexivity. Qed.
+
+(* theorems 7a / 7b / 9 / 9': premises are satisfiable *)
+Example placeholders_only_premise :
+  let t := s2n "<link name=""CSS_PLACEHOLDER""/></head><script name=""JS_PLACEHOLDER""></script>" in
+  has KCss (ph_tokens t) = true /\ has KJs (ph_tokens t) = true.
+Proof. vm_compute. split; reflexivity. Qed.
+
+Example no_end_tag_premise :
+  forall i, tag_here (repl (s2n "<J>") (s2n "<C>")) (skipn i (ph_tokens (s2n "</HEAD></ body>"))) = None.
+Proof. intro i. do 16 (destruct i as [|i]; [vm_compute; reflexivity|]). destruct i; reflexivity. Qed.
+
+Example middleware_premises :
+  is_html {| streaming := false; ctype := Some (s2n "text/html; charset=utf-8"); body := [] |} = true /\
+  is_html {| streaming := true; ctype := Some (s2n "text/html"); body := [] |} = false /\
+  starts_with (s2n "text/html") (s2n "text/htm") = false /\
+  starts_with (s2n "text/html") (s2n "application/json") = false.
+Proof. vm_compute. repeat split. Qed.
 
 (* error outcomes are explicit *)
 Example errors_explicit :
